@@ -1,4 +1,5 @@
 import LettreVerif.Proofs.Timeouts
+import LettreVerif.Proofs.TransportBlocked
 import LettreVerif.Model.Timeouts
 /-!
 # C20 — A stalled server cannot block a send beyond the configured timeout
@@ -42,6 +43,37 @@ theorem waiting_read_is_error (c : Conn) :
 theorem broken_not_parked (p : Pool) (i : Nat) (c : Conn) (hc : p.conns[i]? = some c) (hp : c.panic = true) :
     (p.recycle i).idle = p.idle := by
   simp [Pool.recycle, hc, hp, Pool.setConn]
+
+/-- **Through the transport, on pooled and fresh connections.** One `send_raw` over a pool with `n` parked connections
+    makes at most `2·n + 5` reads wait on silent peers, counted over every connection of the transport and whatever
+    each peer does: two per parked connection that fails its NOOP probe (the probe, and the QUIT of `abort`), two for a
+    new connection (greeting or EHLO, and QUIT), two for the transaction (`send_waits_at_most_twice`), one for the QUIT
+    of a connection that is not parked afterwards. -/
+theorem send_raw_waits_bounded (p : Pool) (from? : Option Bytes) (to : List Bytes) (msg : Bytes) :
+    (p.sendRaw from? to msg).1.totalBlocked ≤ p.totalBlocked + 2 * p.idle.length + 5 :=
+  sendRaw_blocked p from? to msg
+
+/-- With the sync client a `send_raw` therefore waits at most (2·n + 5)·T. -/
+theorem sync_send_raw_bounded (p : Pool) (from? : Option Bytes) (to : List Bytes) (msg : Bytes) :
+    ∃ b, waitBound .sync ((p.sendRaw from? to msg).1.totalBlocked - p.totalBlocked) = some b ∧
+      b ≤ 2 * p.idle.length + 5 := by
+  have := sendRaw_blocked p from? to msg
+  simp only [waitBound, deadline]
+  split
+  · exact ⟨0, rfl, by omega⟩
+  · exact ⟨_, rfl, by omega⟩
+
+/-- non-vacuity: the parked connection has gone silent; its NOOP probe waits, so does the QUIT of `abort`; the send then
+    goes to a new connection and succeeds. -/
+example :
+    let h : List Step := [⟨str "220 hi\r\n", false⟩, ⟨str "250 srv\r\n", false⟩, ⟨str "250 ok\r\n", false⟩,
+      ⟨str "250 ok\r\n", false⟩, ⟨str "354 go\r\n", false⟩, ⟨str "250 queued\r\n", false⟩]
+    let p0 : Pool := { conns := [], idle := [], scripts := [h, h], maxSize := 1, hello := str "c", stallAtEnd := true }
+    let p1 := (p0.sendRaw none [str "x@y.z"] (str "m")).1
+    p1.idle.length = 1 ∧ p1.totalBlocked = 0 ∧
+      (p1.sendRaw none [str "x@y.z"] (str "m")).1.totalBlocked = 2 ∧
+      (match (p1.sendRaw none [str "x@y.z"] (str "m")).2 with | .ok _ => true | _ => false) = true := by
+  decide
 
 /-- The tokio client has no deadline on reads: a peer that never greets makes `connect` wait on
     a read that nothing bounds (the finding `async-no-io-deadline`). -/
